@@ -195,3 +195,7 @@ mod tests {
         }
     }
 }
+
+#[cfg(kani)]
+#[path = "/verif/units/kani/store_meta.rs"]
+mod verif_kani;
